@@ -141,8 +141,9 @@ async fn scenario(rng: &mut Rng, rep: &mut Report, ops: usize) {
     let mut w = World { b, node, tip, trace: vec![], submitted: vec![] };
     rep.count("scenarios");
     let hb = params.heartbeat;
+    let mut force_short_bundle = false;
     for step in 0..ops {
-        let op = rng.below(100);
+        let op = if force_short_bundle { 60 } else { rng.below(100) };
         let gp = params.gp;
         let ledger = w.b.store.ledger(&w.tip);
         let opname: String;
@@ -164,8 +165,20 @@ async fn scenario(rng: &mut Rng, rep: &mut Report, ops: usize) {
                     None
                 }
             } else {
-                let (amt, fee) = (1 + rng.below(5000), 100 + rng.below(2000));
-                w.b.payment(rng, &w.tip.clone(), from, (from + 2) % n, amt, fee, &mut exclude)
+                // a routed arrival carries work for this node: its fee is sized against the work a
+                // block needs a few seconds after the tip
+                let routed = from != 1 && rng.chance(1, 2);
+                let need = w.b.store.get(&w.tip).block.burnfee / 6_500;
+                let (amt, fee) = if routed { (1 + rng.below(5000), (*rng.pick(&[need / 3, need, 2 * need, 6 * need])).max(50)) } else { (1 + rng.below(5000), 100 + rng.below(2000)) };
+                let t = w.b.payment(rng, &w.tip.clone(), from, (from + 2) % n, amt, fee, &mut exclude);
+                t.map(|mut t| {
+                    if routed {
+                        let (sender, node) = (w.b.actors[from].clone(), w.b.actors[1].clone());
+                        add_path(&mut t, &sender, &[&node]);
+                        rep.count("arrivals_routed_to_the_node");
+                    }
+                    t
+                })
             };
             if let Some(tx) = tx {
                 {
@@ -205,7 +218,18 @@ async fn scenario(rng: &mut Rng, rep: &mut Report, ops: usize) {
                     let input = victim.from.iter().find(|s| s.amount > 0).unwrap();
                     let owner = w.b.actors.iter().find(|a| a.pk == input.public_key).unwrap().clone();
                     let o = OutRef { owner: owner.pk, amount: input.amount, block_id: input.block_id, tx_ordinal: input.tx_ordinal, slip_index: input.slip_index, slip_type: input.slip_type as u8 };
-                    build_tx(&owner, &[o.clone()], &[(owner.pk, o.amount - 77)], w.b.store.get(&w.tip).ts + 5, b"conflict")
+                    // half of the conflicts also spend an output nobody else spends, placed before
+                    // or after the contested one
+                    let taken: Vec<[u8; 59]> = pooled.iter().flat_map(value_inputs).collect();
+                    let fresh = ledger.safe_owned_by(&owner.pk, gp).into_iter().find(|f| f.slip_type == 0 && f.amount > 100 && !taken.contains(&f.key()));
+                    match fresh {
+                        Some(f) if rng.chance(1, 2) => {
+                            rep.count("conflicting_arrivals_with_an_uncontested_input");
+                            let ins = if rng.chance(2, 3) { vec![f.clone(), o.clone()] } else { vec![o.clone(), f.clone()] };
+                            build_tx(&owner, &ins, &[(owner.pk, o.amount + f.amount - 77)], w.b.store.get(&w.tip).ts + 5, b"conflict2")
+                        }
+                        _ => build_tx(&owner, &[o.clone()], &[(owner.pk, o.amount - 77)], w.b.store.get(&w.tip).ts + 5, b"conflict"),
+                    }
                 };
                 let before = { w.node.mempool.read().await.transactions.len() };
                 {
@@ -234,13 +258,36 @@ async fn scenario(rng: &mut Rng, rep: &mut Report, ops: usize) {
             } else {
                 None
             };
-            let ts = w.b.store.get(&w.tip).ts + 2 * hb + 6000;
+            // half of the attempts come a few seconds after the tip and go through the gate the
+            // consensus thread uses (work cached in the pool against work needed at that time)
+            let short_gap = force_short_bundle || rng.chance(1, 2);
+            force_short_bundle = false;
+            let ts = if short_gap { w.b.store.get(&w.tip).ts + 5_000 + rng.below(2 * hb - 5_050) } else { w.b.store.get(&w.tip).ts + 2 * hb + 6000 };
             let pool_before: BTreeSet<Vec<u8>> = { w.node.mempool.read().await.transactions.keys().map(|k| k.to_vec()).collect() };
+            {
+                let pool = w.node.mempool.read().await;
+                let sum: u64 = pool.transactions.values().map(|t| t.total_work_for_me).sum();
+                let cached = pool.get_routing_work_available();
+                rep.count(if cached == sum { "bundle_attempts.cached-work-equals-pool-work" } else if cached > sum { "bundle_attempts.cached-work-above-pool-work" } else { "bundle_attempts.cached-work-below-pool-work" });
+            }
             let bundled: Result<Option<Block>, crate::panics::PanicInfo> = {
                 let cfg = w.node.cfg.read().await;
                 let chain = w.node.chain.read().await;
                 let mut pool = w.node.mempool.write().await;
-                crate::panics::catch_async(pool.bundle_block(&chain, ts, gt, cfg.deref(), &w.node.storage)).await
+                let open = if short_gap {
+                    rep.count("bundle_attempts_at_short_gap");
+                    pool.can_bundle_block(&chain, ts, &gt, cfg.deref(), &w.b.actors[1].pk).await.is_some()
+                } else {
+                    true
+                };
+                if open {
+                    if short_gap {
+                        rep.count("bundle_attempts_at_short_gap.gate-open");
+                    }
+                    crate::panics::catch_async(pool.bundle_block(&chain, ts, gt, cfg.deref(), &w.node.storage)).await
+                } else {
+                    Ok(None)
+                }
             };
             match bundled {
                 Err(p) => {
@@ -286,7 +333,7 @@ async fn scenario(rng: &mut Rng, rep: &mut Report, ops: usize) {
                         rep.count("bundle_dropped_unbundled_txs");
                     }
                     w.submitted.retain(|t| !in_block.contains(&t.signature.to_vec()));
-                    opname = format!("bundle({})", block.transactions.len());
+                    opname = format!("bundle{}({})", if short_gap { "-short-gap" } else { "" }, block.transactions.len());
                 }
             }
         } else if op < 92 {
@@ -342,6 +389,9 @@ async fn scenario(rng: &mut Rng, rep: &mut Report, ops: usize) {
                     }
                     w.tip = h;
                     rep.count("peer_blocks");
+                    if kind == "peer-conflict" && rng.chance(1, 2) {
+                        force_short_bundle = true;
+                    }
                     opname = kind.into();
                 }
                 Err(e) => {
